@@ -1,0 +1,47 @@
+//go:build verif
+
+package ctfe
+
+import (
+	"context"
+
+	"github.com/google/certificate-transparency-go/trillian/ctfe/cache"
+	"github.com/google/certificate-transparency-go/trillian/ctfe/storage"
+	"github.com/google/certificate-transparency-go/trillian/util"
+)
+
+// VerifOverrides lets an external verification harness replace the two
+// collaborators of an Instance that the exported constructor hard-wires.
+type VerifOverrides struct {
+	// TimeSource replaces the system clock when non-nil.
+	TimeSource util.TimeSource
+	// ChainStorage, when non-nil, switches the instance to external issuance
+	// chain storage backed by this implementation (with the cache selected by
+	// InstanceOptions.CacheType / CacheOption, optionally wrapped by WrapCache).
+	ChainStorage storage.IssuanceChainStorage
+	WrapCache    func(cache.IssuanceChainCache) cache.IssuanceChainCache
+}
+
+// SetUpInstanceForVerif is SetUpInstance with the overrides applied after the
+// regular set-up code has run.
+func SetUpInstanceForVerif(ctx context.Context, opts InstanceOptions, ov VerifOverrides) (*Instance, error) {
+	li, err := setUpLogInfo(ctx, opts)
+	if err != nil {
+		return nil, err
+	}
+	if ov.TimeSource != nil {
+		li.TimeSource = ov.TimeSource
+	}
+	if ov.ChainStorage != nil {
+		c, err := cache.NewIssuanceChainCache(ctx, opts.CacheType, opts.CacheOption)
+		if err != nil {
+			return nil, err
+		}
+		if ov.WrapCache != nil {
+			c = ov.WrapCache(c)
+		}
+		li.issuanceChainService = newIndirectIssuanceChainService(ov.ChainStorage, c)
+	}
+	handlers := li.Handlers(opts.Validated.Config.Prefix)
+	return &Instance{Handlers: handlers, STHGetter: li.sthGetter, li: li}, nil
+}
